@@ -140,8 +140,12 @@ def _first_error(text):
 BUCKETS = [
     (r"no method named `wit_map_len`", "WitMap-trait-not-in-scope"),
 ]
-# error codes a clash between a WIT name and a generator temporary typically produces
-TEMP_CODES = {"E0308", "E0277", "E0599", "E0425", "E0061", "E0606", "E0614", "E0600", "E0369", "E0609", "E0610"}
+DIRECTED = [
+    ("world-level-map-import", "w", "package a:b;\nworld w { import f: func(m: map<u32, string>) -> u32; }\n", ["default"]),
+    ("raw-strings-two-byte-futures", "w", "package a:b;\ninterface i { f: func(a: future<string>, b: future<list<u8>>); }\nworld w { import i; }\n", ["raw-strings"]),
+    ("cleanup-list-param", "w", "package a:b;\nworld w { import f: func(cleanup-list: option<string>, x: list<string>) -> string; export g: func(cleanup-list: list<string>, y: string) -> string; }\n", ["default"]),
+    ("type-named-guest", "w", "package a:b;\ninterface i { flags guest { a, b } f: func(x: guest) -> guest; }\nworld w { export i; }\n", ["default"]),
+]
 
 
 def run_job(job, workroot, ctx):
@@ -181,9 +185,11 @@ def run_job(job, workroot, ctx):
         root = compz.bucket(msg, BUCKETS)
         if not root and "expected identifier, found" in msg:
             root = compz.keyword_root_cause(err, wit_text, compz.RUST_KEYWORDS)
-        if not root and job["source"] == "random" and code in TEMP_CODES and compz.GENERATOR_TEMPORARIES.search(wit_text):
-            root = "maybe-generator-temporary-collision:" + code
-        return {"status": "violation", "stage": "rustc", "sig": compz.signature(job, "rust:rustc:", root or "%s:%s" % (code or "error", compz.normalise_rust(msg)), closed=tuple(b for _, b in BUCKETS)),
+        if not root and job["source"] in ("random", "directed") and compz.confirmed_temporary_collision(err, wit_text):
+            root = "generator-temporary-collision"
+        sig = compz.signature(job, "rust:rustc:", root, named=True) if root else \
+            compz.signature(job, "rust:rustc:", "%s:%s" % (code or "error", compz.normalise_rust(msg)))
+        return {"status": "violation" if sig else "unclassified", "stage": "rustc", "sig": sig,
                 "what": "%s: error%s: %s" % (what, "[%s]" % code if code else "", msg), "detail": err[:2500]}
 
     # native type-check, as crates/test/src/rust.rs `verify` (without -Dwarnings)
@@ -264,12 +270,12 @@ def run(tier, seed, replay):
         else:
             ctx["tier"] = tier
             if tier == "quick":
-                jobs, stats = compz.plan("rust", tier, seed, work, VARIANTS, 20, PROFILES, quick_corpus=(1, 4))
+                jobs, stats = compz.plan("rust", tier, seed, work, VARIANTS, 20, PROFILES, quick_corpus=(1, 4), directed=DIRECTED)
                 # the `temporaries` world fails the same way under every option set: one variant is enough
                 jobs = [j for j in jobs if not (j["name"] == "temporaries" and j["variant"] != "default")]
             else:
-                jobs, stats = compz.plan("rust", tier, seed, work, VARIANTS, 160, PROFILES)
-        counts = {"ok": 0, "violation": 0, "inconclusive": 0}
+                jobs, stats = compz.plan("rust", tier, seed, work, VARIANTS, 160, PROFILES, directed=DIRECTED)
+        counts = {"ok": 0, "violation": 0, "inconclusive": 0, "unclassified": 0}
         per_variant = {}
         wasm_built = 0
         native_checks = 0
@@ -291,6 +297,9 @@ def run(tier, seed, replay):
                     if len(rep.samples) < 6:
                         rep.samples.append({"job": j["id"], "args": ["--stubs"] + j["args"], "world": r["world"], "wasm32_built": r["wasm"],
                                             "component_import_funcs": r["imports"], "component_export_funcs": r["exports"]})
+                elif r["status"] == "unclassified":
+                    rep.add_eval(vcommon.stable_hash([compz.read_wit(j["wit"]), j["variant"]]))
+                    compz.unclassified(rep, j, r["stage"], r["what"], r.get("detail", ""))
                 elif r["status"] == "violation":
                     tally = rep.extra.setdefault("violation_tally", {})
                     k = "%s | %s" % (r["sig"], compz.normalise(r["what"].split(": ", 1)[-1]))
@@ -321,8 +330,8 @@ def dbg_ctx(work):
 
 def dbg_plan(tier, seed, work):
     if tier == "quick":
-        return compz.plan("rust", tier, seed, work, VARIANTS, 20, PROFILES, quick_corpus=(1, 4))
-    return compz.plan("rust", tier, seed, work, VARIANTS, 160, PROFILES)
+        return compz.plan("rust", tier, seed, work, VARIANTS, 20, PROFILES, quick_corpus=(1, 4), directed=DIRECTED)
+    return compz.plan("rust", tier, seed, work, VARIANTS, 160, PROFILES, directed=DIRECTED)
 
 
 def dbg_run(job, work, ctx):
